@@ -2203,9 +2203,9 @@ class LogicalFile:
             data = {}
 
         if isinstance(data, dict):
-            self._data_dict = self._data_dict | data
+            # the data passed to write() are used for this write only: they are not kept in self._data_dict
             data_object = DictDataWrapper(
-                self._data_dict,
+                self._data_dict | data,
                 mapping=fr.channel_name_mapping,
                 known_dtypes=fr.known_channel_dtypes_mapping,
                 from_idx=from_idx,
